@@ -91,6 +91,17 @@ def exec_scenario(scn):
 
     def run_op(t, j, op):
         kind = op["op"]
+        if kind == "H1c":
+            # the plain-text call a user makes after cleaning the markup himself
+            try:
+                cleaned = clean_text(op["markup"], list(op["clean"]))
+            except (SimCancelled, SimOverrun):
+                raise
+            except Exception:
+                return
+            op = {"op": "H1", "text": cleaned}
+            kind = "H1"
+            threads[t][j] = dict(op, _derived=True)
         if kind in JUDGED:
             key = ops.op_key(op)
             kd = seeds.digest(key)
@@ -162,6 +173,8 @@ def exec_scenario(scn):
                 doc = Document(plain_text=r["op"].get("text", ""), markup_text="")
                 refs = extract_reference_citations(found, doc)
                 filter_citations(list(r["res"]) + refs)
+                # the returned list is a result of an earlier call too
+                retain(t, j, {"op": "H4refs", "text": r["op"].get("text", "")}, refs)
             except (SimCancelled, SimOverrun):
                 raise
             except Exception:
@@ -197,8 +210,10 @@ def exec_scenario(scn):
         recheck(-1, -1)
     except SimOverrun:  # pragma: no cover - tracing is off here
         pass
+    derived = [[t, j, {k: v for k, v in op.items() if k != "_derived"}]
+               for t, th in enumerate(threads) for j, op in enumerate(th) if op.get("_derived")]
     out = {
-        "obs": obs, "viol": viol,
+        "obs": obs, "viol": viol, "derived": derived,
         "events": baton.events, "switches": baton.switches,
         "digest": baton.digest(), "first": baton.first,
         "recorded": baton.recorded, "exits": baton.exit_recorded,
@@ -317,6 +332,14 @@ class ScenarioGen:
                     opsl.append(op)
                     # the documented flow is followed by another extraction
                     op = {"op": "H1", "text": text}
+                elif x < 0.92 and text not in ("", "eyecite"):
+                    cl = g.choice([["html", "all_whitespace"], ["html"], ["html", "inline_whitespace"]])
+                    mk = tg.markup(text)
+                    opsl.append({"op": "H1", "text": "", "markup": mk, "clean": cl})
+                    op = {"op": "H1c", "markup": mk, "clean": cl}
+                    if g.random() < 0.5:
+                        opsl.append(op)
+                        op = {"op": "H4", "r": g.randrange(8), "c": g.randrange(4), "name": "Foo"}
                 elif x < 0.95:
                     op = {"op": "RC"}
                 else:
@@ -329,6 +352,15 @@ class ScenarioGen:
             cancel_plan[str(t)] = int(math.exp(g.uniform(math.log(30), math.log(30000))))
         return {"seed": run_seed, "threads": threads, "p": p, "setorder": setorder,
                 "cancel_plan": cancel_plan}
+
+
+def effective_op(scn, res, t, j):
+    """The judged operation at (t, j): H1c ops are replaced by the plain H1 call
+    on the cleaned text the child derived."""
+    for (dt, dj, op) in res.get("derived") or []:
+        if dt == t and dj == j:
+            return op
+    return scn["threads"][t][j]
 
 
 def to_replayable(scn, res):
@@ -530,7 +562,7 @@ class Checker:
             for (t, j, kd, od) in res["obs"]:
                 if not self.observe(kd, od, ("sim", i, t, j), ctxkind):
                     self.suspects[-1]["scn"] = to_replayable(scn, res)
-                    self.suspects[-1]["op"] = scn["threads"][t][j]
+                    self.suspects[-1]["op"] = effective_op(scn, res, t, j)
             for (cls, t, j, detail) in res["viol"]:
                 self.suspects.append({"class": cls, "scn": to_replayable(scn, res),
                                       "at": (t, j), "detail": detail, "run": i})
@@ -671,7 +703,7 @@ class Checker:
             return set(), res
         classes = set(v[0] for v in res["viol"])
         for (t, j, kd, od) in res["obs"]:
-            op = scn["threads"][t][j]
+            op = effective_op(scn, res, t, j)
             if self.baseline(op)["od"] != od:
                 classes.add("purity")
         return classes, res
@@ -722,7 +754,7 @@ class Checker:
     def judge(self):
         known = report_mod.load_known(PROP)
         seen_sig = set()
-        budget_reports = 6
+        budget_reports = int(os.environ.get("VERIF_MAX_VIOLATIONS", "4"))
         t_judge = time.monotonic()
         for s in self.suspects:
             if len(self.violations) >= budget_reports:
@@ -836,6 +868,7 @@ class Checker:
         base = {}
         for t, th in enumerate(m["threads"]):
             for j, op in enumerate(th):
+                op = effective_op(m, res, t, j)
                 if op["op"] in JUDGED:
                     base[f"{t}.{j}"] = self.baseline(op)["outcome"]
         sig_ops = [[_op_brief(o) for o in th] for th in m["threads"]]
